@@ -548,7 +548,23 @@ class Emit:
             els = t.els
             if getattr(t, 'opaque', False):
                 return None, [], False
-            fs = ''.join(' %s f%d;' % (self.cty(e), i) for i, e in enumerate(els))
+            if self.opt_flat_unions and getattr(t, 'is_union', False):
+                # --flat-unions: 2/4/8-byte integer members of LLVM 'union.*' structs (e.g. std::string's {i64 capacity, [8 x i8]}
+                # small-string buffer) become aligned byte arrays: same layout, all accesses already go through casts, but
+                # byte-wise writes followed by byte-wise reads constant-fold in CBMC instead of nesting byte_update in a uint64
+                fs = ''.join((' uint8_t f%d[%d] __attribute__((aligned(%d)));' % (i, self.bits(e) // 8, self.bits(e) // 8)) if isinstance(self.resolve(e), IntT) and self.bits(e) in (16, 32, 64)
+                             else ' %s f%d;' % (self.cty(e), i) for i, e in enumerate(els))
+            elif self.opt_union_fp_bytes and getattr(t, 'in_union', False):
+                # --union-fp-bytes: float/double members of LLVM 'union.*' structs and of the structs they contain by value (e.g.
+                # std::variant's _Uninitialized<double> that overlays a std::string) become aligned byte arrays. Same layout; all
+                # memory accesses already go through pointer casts. Reason: CBMC loses the object identity of a POINTER that is
+                # stored (type-punned) into a double-typed location and later dereferenced (reads come back unconstrained);
+                # integer/byte-typed locations keep it. A by-value (extract/insertvalue) use of such a member does not compile.
+                fs = ''.join((' uint8_t f%d[%d] __attribute__((aligned(%d)));' % (i, {'float': 4, 'double': 8}[self.resolve(e).k], {'float': 4, 'double': 8}[self.resolve(e).k]))
+                             if isinstance(self.resolve(e), FloatT) and self.resolve(e).k in ('float', 'double')
+                             else ' %s f%d;' % (self.cty(e), i) for i, e in enumerate(els))
+            else:
+                fs = ''.join(' %s f%d;' % (self.cty(e), i) for i, e in enumerate(els))
             if not els:
                 fs = ' uint8_t empty_[0];'
             return '{' + fs + ' }', els, t.packed
@@ -566,6 +582,8 @@ class Emit:
             done.add(k)
             if k[0] == 'n':
                 t = self.m.named[k[1]]; cname = 'struct N_' + san(k[1])
+                if isinstance(t, StructT) and k[1].lstrip('%').strip('"').startswith('union.'):
+                    t.is_union = True
             else:
                 cname, t = self.structs[k[1]]
             b, deps, packed = body(t) if not isinstance(t, NamedT) else (None, [], False)
@@ -575,6 +593,15 @@ class Emit:
                 need(d)
             lines.append('%s %s%s;' % (cname, b, ' __attribute__((packed))' if packed else ''))
 
+        if self.opt_union_fp_bytes:
+            work = [n for n, t in self.m.named.items() if isinstance(t, StructT) and n.lstrip('%').strip('"').startswith('union.')]
+            while work:
+                t = self.m.named[work.pop()]
+                if getattr(t, 'in_union', False): continue
+                t.in_union = True
+                for e in t.els:
+                    while isinstance(e, (ArrT, VecT)): e = e.el
+                    if isinstance(e, NamedT) and isinstance(self.m.named.get(e.name), StructT): work.append(e.name)
         # force creation of literal struct names by touching all named types
         for n, t in self.m.named.items():
             if isinstance(t, StructT):
@@ -1023,6 +1050,7 @@ class Emit:
         order = post[::-1]
         blocks = collections.OrderedDict((l, blocks[l]) for l in order)
         self.blocks = blocks
+        self.defs = {i['res']: i for inss in blocks.values() for i in inss if i.get('res')}
         # phi copies per edge
         phis = {lab: [i for i in inss if i['op'] == 'phi'] for lab, inss in blocks.items()}
         self.phis = phis
@@ -1052,6 +1080,9 @@ class Emit:
         return '\n'.join(out)
 
     phis_any = False
+    opt_ptrdiff = False
+    opt_flat_unions = False
+    opt_union_fp_bytes = False
     phi_tmps = set()
     extra_decls = []
 
@@ -1274,6 +1305,15 @@ class Emit:
         o = ins.get('ops', [])
         if op in ('add', 'sub', 'mul', 'shl', 'udiv', 'sdiv', 'urem', 'srem', 'lshr', 'ashr', 'and', 'or', 'xor', 'fadd', 'fsub', 'fmul', 'fdiv', 'frem', 'fneg',
                   'icmp', 'fcmp', 'trunc', 'zext', 'sext', 'fptoui', 'fptosi', 'uitofp', 'sitofp', 'fpext', 'fptrunc', 'select'):
+            if op == 'sub' and self.opt_ptrdiff and self.bits(ins['ty']) == 64 and all(x.kind == 'local' for x in o):
+                d = [self.defs.get(x.name) for x in o]
+                if all(di is not None and di['op'] == 'ptrtoint' for di in d):
+                    # --ptrdiff: (i64)p - (i64)q of two pointers goes through verif_ptrdiff (verif_rt.h): a C pointer difference
+                    # when CBMC knows both point into the same object (constant-folds; (size_t)&a+16 - (size_t)&a does NOT
+                    # fold and makes every std::string/vector size symbolic), the integer difference otherwise (LLVM
+                    # speculates e.g. memchr_result - data above the null test). Same value in every case.
+                    a0, a1 = self.val(d[0]['ops'][0]), self.val(d[1]['ops'][0])
+                    return ['%s = verif_ptrdiff((uint8_t*)%s, (uint8_t*)%s);' % (R, a0, a1)]
             return ['%s = %s;' % (R, self.arith(op, ins['ty'], o, [self.val(x) for x in o], pred=ins.get('pred')))]
         if op in ('bitcast', 'ptrtoint', 'inttoptr', 'addrspacecast'):
             st, dt = self.resolve(o[0].ty), self.resolve(ins['ty'])
@@ -1514,6 +1554,9 @@ def main():
     ap.add_argument('ll'); ap.add_argument('-o', default='-'); ap.add_argument('--roots', default=''); ap.add_argument('--append', action='append', default=[])
     ap.add_argument('--cut', action='append', default=[], help='regex on mangled names: matching defined functions are treated as externals (X_<name>), to be provided by the harness; unprovided => assertion failure when reached')
     ap.add_argument('--provided', default='', help='file listing C names (X_...) defined elsewhere')
+    ap.add_argument('--ptrdiff', action='store_true', help='emit sub(ptrtoint p, ptrtoint q) as a C pointer difference (opt-in, see emit_ins)')
+    ap.add_argument('--union-fp-bytes', action='store_true', help='emit float/double members of LLVM union.* structs (and structs nested in them by value) as byte arrays (opt-in, see emit_struct_defs)')
+    ap.add_argument('--flat-unions', action='store_true', help='emit integer members of LLVM union.* structs as byte arrays (opt-in, see emit_struct_defs)')
     ap.add_argument('--report', default='', help='write JSON report (functions emitted, unmodelled externals)')
     a = ap.parse_args()
     m = parse_module(open(a.ll).read())
@@ -1523,6 +1566,7 @@ def main():
         if f.isdef and any(re.search(c, n[1:].strip('"')) for c in a.cut):
             f.isdef = False; f.blocks = collections.OrderedDict(); cut_names.append(n[1:])
     e = Emit(m, roots)
+    e.opt_ptrdiff = a.ptrdiff; e.opt_flat_unions = a.flat_unions; e.opt_union_fp_bytes = a.union_fp_bytes
     e.cut_names = cut_names
     e.append = a.append
     if a.provided:
